@@ -57,6 +57,12 @@ def strings(rng, n):
         out.append("0" * k + str((1 << 256) // (10 ** 18)) + ".584007913129639936")
         out.append("7." + "0" * k)
         out.append("7.5" + "0" * k)
+    # very long fractions: a length counter narrower than usize (u8, u16) wraps at 256 / 65536 digits
+    for L in [254, 255, 256, 257, 258, 273, 274, 275, 511, 512, 513, 530, 1024, 65535, 65536, 65537, 65554]:
+        out.append("0." + "0" * (L - 1) + "1")
+        out.append("5." + "0" * (L - 7) + "1234567")
+        out.append("0." + "0" * L)
+        out.append("1." + "0" * (L - 1) + "1" + "0" * 5)
     while len(out) < n:
         w = "".join(rng.choice(digits) for _ in range(rng.choice([1, 1, 2, 5, 19, 40, 59, 60, 61, 78])))
         if rng.random() < 0.3:
@@ -155,6 +161,10 @@ def model_term(c, o):
         return "agree_display %s %s && agree_from_str %s %s %s" % (
             cN(a), cstr(o["s"]), cstr(o["s"]), cN(o["code"]), cN(int(o["v"])))
     if c["op"] == "from_str":
+        if len(c["bytes"]) > 8000:
+            # (a string literal of this size overflows coqc's stack; these few inputs are judged by the
+            #  model-independent oracle only -- parse_accepts_iff covers every length)
+            return "true"
         return "agree_from_str %s %s %s" % (cstr(bytes(c["bytes"])), cN(o["code"]), cN(int(o["v"])))
     f = "agree_add" if c["op"] == "add" else "agree_sub"
     return "%s %s %s %s" % (f, cN(int(c["a"])), cN(int(c["b"])), copt(o["r"], lambda x: cN(int(x))))
